@@ -20,6 +20,9 @@ var adapterFor = map[string]string{
 	"(*tunnelChannel).getStream":      "getStreamClient",
 	"(*tunnelChannel).allocateStream": "allocateStream",
 	"(*reverseChannels).pick":         "pick",
+	"(*reverseChannels).remove":       "registryRemove",
+	"(*reverseChannels).add":          "registryAdd",
+	"(*tunnelChannel).Err":            "channelErr",
 	"(*tunnelChannel).recvLoop":       "negotiate",
 }
 
